@@ -37,13 +37,54 @@ impl std::fmt::Display for ProbeError {
 }
 impl std::error::Error for ProbeError {}
 
-/// mode 0: draws nothing; mode 1: draws a data-dependent number of words; mode 2: can fail
+/// mode 0: draws nothing; mode 1: draws a data-dependent number of words; mode 2: fails for certain
+/// arguments before drawing; mode 3: draws one word and fails if it is low ("unlucky draw": a
+/// wrapper that retries, or calls twice, changes the result, the error and the draw trace);
+/// mode 4: draws two words and fails if they are equal
 #[derive(Clone, Copy, Debug)]
 pub struct P(pub u8);
+pub const MODES: u8 = 5;
+
+thread_local! {
+    /// number of calls that reached a wrapped implementation (an erased form must forward exactly once)
+    static CALLS: std::cell::Cell<u64> = const { std::cell::Cell::new(0) };
+}
+fn called() {
+    CALLS.with(|c| c.set(c.get() + 1));
+}
+fn take_calls() -> u64 {
+    CALLS.with(|c| c.replace(0))
+}
+/// the draw-dependent failures shared by all five traits
+fn unlucky<R: Rng + ?Sized>(mode: u8, rng: &mut R) -> Result<(), ProbeError> {
+    match mode {
+        3 => {
+            let w = rng.random_range(0..2u8);
+            if w == 0 {
+                return Err(ProbeError("unlucky draw 0".into()));
+            }
+            Ok(())
+        }
+        4 => {
+            let a = rng.random_range(0..2u8);
+            let b = rng.random_range(0..2u8);
+            if a == b {
+                return Err(ProbeError(format!("equal draws {a} {b}")));
+            }
+            Ok(())
+        }
+        _ => Ok(()),
+    }
+}
 
 impl Selector<Pop> for P {
     type Error = ProbeError;
     fn select<'pop, R: Rng + ?Sized>(&self, pop: &'pop Pop, rng: &mut R) -> Result<&'pop Ind, ProbeError> {
+        called();
+        if self.0 >= 3 {
+            unlucky(self.0, rng)?;
+            return pop.first().ok_or_else(|| ProbeError("empty".into()));
+        }
         match self.0 {
             0 => pop.last().ok_or_else(|| ProbeError("empty".into())),
             1 => {
@@ -66,6 +107,12 @@ impl Selector<Pop> for P {
 impl Mutator<Vec<u8>> for P {
     type Error = ProbeError;
     fn mutate<R: Rng + ?Sized>(&self, mut g: Vec<u8>, rng: &mut R) -> Result<Vec<u8>, ProbeError> {
+        called();
+        if self.0 >= 3 {
+            unlucky(self.0, rng)?;
+            g.push(99);
+            return Ok(g);
+        }
         match self.0 {
             0 => {
                 g.reverse();
@@ -93,6 +140,11 @@ impl Recombinator<[Vec<u8>; 2]> for P {
     type Output = Vec<u8>;
     type Error = ProbeError;
     fn recombine<R: Rng + ?Sized>(&self, [a, b]: [Vec<u8>; 2], rng: &mut R) -> Result<Vec<u8>, ProbeError> {
+        called();
+        if self.0 >= 3 {
+            unlucky(self.0, rng)?;
+            return Ok(b.into_iter().chain(a).collect());
+        }
         match self.0 {
             0 => Ok(a.into_iter().chain(b).collect()),
             1 => Ok(a.iter().zip(&b).map(|(x, y)| if rng.random_range(0..2u8) == 0 { *x } else { *y }).collect()),
@@ -111,6 +163,7 @@ impl Operator<Vec<u8>> for P {
     type Output = (usize, Vec<u8>);
     type Error = ProbeError;
     fn apply<R: Rng + ?Sized>(&self, x: Vec<u8>, rng: &mut R) -> Result<(usize, Vec<u8>), ProbeError> {
+        called();
         let m = <P as Mutator<Vec<u8>>>::mutate(self, x, rng)?;
         Ok((m.len(), m))
     }
@@ -118,7 +171,12 @@ impl Operator<Vec<u8>> for P {
 impl ChildMaker<Pop, Best> for P {
     type Error = ProbeError;
     fn make_child<R: Rng + ?Sized>(&self, rng: &mut R, pop: &Pop, sel: &Best) -> Result<Ind, ProbeError> {
+        called();
         let parent = sel.select(pop, rng).map_err(|e| ProbeError(e.to_string()))?;
+        if self.0 >= 3 {
+            unlucky(self.0, rng)?;
+            return Ok(parent.clone());
+        }
         match self.0 {
             0 => Ok(parent.clone()),
             1 => {
@@ -150,18 +208,24 @@ pub enum Obs {
     Panic(String),
 }
 
-type Leaves = Vec<(Vec<Choice>, Obs)>;
+type Leaves = Vec<(Vec<Choice>, Obs, u64)>;
 
 fn explore_all(mut f: impl FnMut(&mut Env) -> Obs) -> Leaves {
     let mut out = vec![];
-    explore(|env| f(env), |t, _, o| out.push((t.to_vec(), o)), 100_000);
+    take_calls();
+    explore(|env| f(env), |t, _, o| out.push((t.to_vec(), o, take_calls())), 100_000);
     out
 }
 
 /// compare an erased scenario leaf by leaf with the concrete one
 fn compare(concrete: &Leaves, mut erased: impl FnMut(&mut Env) -> Obs) -> Option<String> {
-    for (trace, want) in concrete {
+    for (trace, want, want_calls) in concrete {
+        take_calls();
         let (got, env) = replay_trace(|e| erased(e), trace);
+        let calls = take_calls();
+        if calls != *want_calls {
+            return Some(format!("for choices {:?} the erased form reached the wrapped implementation {calls} times, a direct call {want_calls} times", trace.iter().map(|c| c.pick).collect::<Vec<_>>()));
+        }
         if let Some(d) = env.diverged {
             return Some(format!("the erased form consumes the random stream differently: {d} (choices {:?})", trace.iter().map(|c| c.pick).collect::<Vec<_>>()));
         }
@@ -291,7 +355,7 @@ pub fn run_all(quick: bool) -> Tally {
     let pops: Vec<Pop> = (0..=if quick { 3 } else { 4 }).map(|n| mk_pop(&(0..n as i64).collect::<Vec<_>>())).collect();
     let genomes: Vec<Vec<u8>> = if quick { vec![vec![], vec![2], vec![1, 2], vec![4, 6, 7]] } else { vec![vec![], vec![2], vec![1, 2], vec![4, 6, 7], vec![0, 2, 4, 6]] };
     let pairs: Vec<[Vec<u8>; 2]> = vec![[vec![], vec![]], [vec![1], vec![2]], [vec![1, 2], vec![3]], [vec![1, 2, 3], vec![4, 5, 6]]];
-    for mode in 0..3u8 {
+    for mode in 0..MODES {
         // ---- Selector
         let conc: Vec<Leaves> = pops.iter().map(|p| explore_all(|e| sel_obs(&P(mode), p, e))).collect();
         t.leaves += conc.iter().map(|l| l.len() as u64).sum::<u64>();
@@ -368,8 +432,8 @@ pub fn run(run: &mut Run) {
     run.evaluations = t.calls + t.leaves;
     run.transitions = t.calls + t.leaves;
     run.traces_validated = t.calls;
-    run.distinct_nontrivial = t.flavours.len() as u64 * 3;
-    run.rule = "5 erasable traits x 7 pointer types (&, &mut, Box, Rc, Arc, Ref, RefMut) x {-, Send, Sync, Send + Sync} = 140 wrapper types x 3 wrapped implementations (no draws / data-dependent number of draws / can fail) x small argument families x every grid word sequence: each leaf of the concrete operator is replayed against the erased form; result identity/value, error text and the complete draw trace must coincide; non-trivial = (flavour, implementation) pairs".into();
+    run.distinct_nontrivial = t.flavours.len() as u64 * MODES as u64;
+    run.rule = "5 erasable traits x 7 pointer types (&, &mut, Box, Rc, Arc, Ref, RefMut) x {-, Send, Sync, Send + Sync} = 140 wrapper types x 5 wrapped implementations (no draws / data-dependent number of draws / fails for certain arguments / fails depending on one drawn word / on two drawn words) x small argument families x every grid word sequence: each leaf of the concrete operator is replayed against the erased form; result identity/value, error text, the complete draw trace and the number of calls that reach the wrapped implementation must coincide; non-trivial = (flavour, implementation) pairs".into();
     run.bound("flavours", json!(t.flavours.len()));
     run.bound("alphabet", json!("Grid(2)"));
     run.note("concrete_leaves", json!(t.leaves));
